@@ -114,6 +114,9 @@ def h_active(sx):
     elif kind == "composite-real":
         prov = CompositeActiveTagValueProvider([ActiveTagValueProvider({c: v for c, v in values.items() if c == "os" and sx.bool("known:%s" % c)}),
                                                 {c: v for c, v in values.items() if c != "os" and sx.bool("known:%s" % c)}])
+    elif kind == "composite-overlap":
+        # two sub-providers know the category "os" (local overrides in front of defaults): the FIRST one that knows it wins
+        prov = CompositeActiveTagValueProvider([Provider(sx, values), {"os": "plan9"}])
     elif kind == "composite":
         prov = CompositeActiveTagValueProvider([Provider(sx, {"os": values["os"]}), Provider(sx, {"ver": values["ver"], "flag": values["flag"]})])
     matcher = ActiveTagMatcher(prov)
@@ -172,6 +175,11 @@ def h_active(sx):
             known = zbool(sx.bool("known:%s" % cat))
             pos = [matches(base, v) for (pf, c, v) in pts if pf in POSITIVE]
             neg = [matches(base, v) for (pf, c, v) in pts if pf in NEGATIVE]
+            if kind == "composite-overlap" and base == "os":
+                # when the first provider does not know "os" the second one answers with a value no tag names
+                pos = [z3.And(known, m_) for m_ in pos]
+                neg = [z3.And(known, m_) for m_ in neg]
+                known = z3.BoolVal(True)
             parts = []
             if pos:
                 parts.append(z3.Not(z3.Or(pos)))
@@ -207,7 +215,7 @@ def jobs(tier, seed):
                 {"ver_compare": "ge", "provider": "atvp-real"}, {"ver_compare": "le", "provider": "composite-real"},
                 {"ver_compare": "ge", "history": True}, {"ver_compare": "eq", "history": True, "provider": "composite-real"},
                 {"ver_compare": "ge", "separator": ":"}, {"ver_compare": "le", "custom_prefixes": True},
-                {"ver_compare": "ge", "dotted_categories": True}]
+                {"ver_compare": "ge", "dotted_categories": True}, {"ver_compare": "le", "provider": "composite-overlap"}]
     # three slots: tags of one category separated by an active tag of ANOTHER category (grouping must not depend on adjacency)
     os_tags = [i for i, t in enumerate(TAGS) if t and "with_os" in t]
     other = [i for i, t in enumerate(TAGS) if t and ("with_ver=3" in t or "with_flag=yes" in t or "with_ver=5" in t)]
